@@ -35,7 +35,7 @@ func (pats *IgnorePatterns) UnmarshalYAML(n *yaml.Node) error {
 		if p.Kind == yaml.AliasNode {
 			p = p.Alias // Value of alias node is the name of the anchor
 		}
-		if p.Kind != yaml.ScalarNode {
+		if p.Kind != yaml.ScalarNode || p.Tag == "!!null" {
 			return fmt.Errorf("yaml: pattern in \"ignore\" must be a string at line:%d,col:%d", p.Line, p.Column)
 		}
 		r, err := regexp.Compile(p.Value)
